@@ -47,7 +47,7 @@ def model_input(case, iline, layouts=None):
     kv = dict(t.split("=", 1) for t in case.split())
     ev = iline.split(" ")[0]
     ev = ev[3:] if ev.startswith("ev=") else "-"
-    np_ = layouts[kv["sc"]]["peers"] if layouts else {"dis": 2, "multi": 3, "hs3": 4, "full": 3, "fullx": 3}.get(kv["sc"], 1)
+    np_ = layouts[kv["sc"]]["peers"] if layouts else {"dis": 2, "multi": 3, "hs3": 4, "full": 3, "fullx": 3, "ddisl": 2}.get(kv["sc"], 1)
     return "seed=%d f=%s tgt=%s np=%d | %s" % (1 if kv["sc"] in G.SEEDING else 0, kv["f"], kv.get("tgt", "0"), np_, ev.rstrip(","))
 
 
@@ -109,7 +109,7 @@ def run(rep, tier, seed, replay):
                    theorems=coq["theorems"], axioms_per_theorem=coq["axioms"],
                    trusted_base=ltv.std_trusted_base(coq, [
                        "theorems (all op lists, by induction): ledger_inv, counters_nonneg, abort_releases_all (state level), stop_zero, "
-                       "restartable, block_owners_inv, blocks_requestable_after_stop; THE TIE IS ENUMERATION, NOT PROOF: the theorems are about the ledger model (coq/C16/Model.v); that the real "
+                       "restartable, block_owners_inv, blocks_requestable_after_stop, disconnect_queued_releases_all, stale_queue_harmless_after_stop (delayed-disconnect queue: ConnectionList::erase(.., disconnect_delayed) / disconnect_queued, scenarios ddis / ddisl, ledger token DQ); THE TIE IS ENUMERATION, NOT PROOF: the theorems are about the ledger model (coq/C16/Model.v); that the real "
                        "teardown code has the ledger effects the model ascribes to each event is checked only on the enumerated "
                        "(scenario, cut offset, fault) cases listed in coverage",
                        "session harness (harness/common/session.{h,cc}, wirepeer.h) + harness/c16.cc: scripted sessions, event recording "
